@@ -631,10 +631,11 @@ func build(tier string) []explore.Scenario {
 func main() {
 	wx.TombstoneAsResource = true
 	explore.Main(explore.Config{
-		Property:  "C11",
-		Technique: "explicit-state BFS over operation sequences applied to a differential twin (direct state vs client adapter -> real marshalling -> server), each history run to exact quiescence on the controlled scheduler; exhaustive enumeration of malformed wire requests against the real server",
-		Rule:      "differential: every operation of the alphabet from every distinct observed state up to the depth, both native and fallback teardown paths; wire: full product of request-field variants; non-trivial = distinct states / requests answered with an error status",
-		Assume:    []string{"transport = in-process loopback that marshals every message with the generated vtproto code and converts errors with grpc/status (no HTTP/2 stack)", "virtual clock: timestamps are equal on both sides and compared exactly"},
-		Extra:     map[string]any{"explanation": "states = distinct full observations (reads, filtered lists, 5 watch streams) reached; transitions = histories executed on both twins; wire part: requests sent"},
+		Property:     "C11",
+		RequireShims: true,
+		Technique:    "explicit-state BFS over operation sequences applied to a differential twin (direct state vs client adapter -> real marshalling -> server), each history run to exact quiescence on the controlled scheduler; exhaustive enumeration of malformed wire requests against the real server",
+		Rule:         "differential: every operation of the alphabet from every distinct observed state up to the depth, both native and fallback teardown paths; wire: full product of request-field variants; non-trivial = distinct states / requests answered with an error status",
+		Assume:       []string{"transport = in-process loopback that marshals every message with the generated vtproto code and converts errors with grpc/status (no HTTP/2 stack)", "virtual clock: timestamps are equal on both sides and compared exactly"},
+		Extra:        map[string]any{"explanation": "states = distinct full observations (reads, filtered lists, 5 watch streams) reached; transitions = histories executed on both twins; wire part: requests sent"},
 	}, build)
 }
